@@ -122,10 +122,10 @@ func finish(o *Options, ov map[string]string, results []*HarnessStats, dirOf map
 				b, _ := os.ReadFile(filepath.Join(rdir, r.file))
 				os.WriteFile(filepath.Join(one, r.file), b, 0o644)
 				r1, o1, e1 := nativeRun(o, ov, dir, one, true)
-				if strings.Contains(o1, "WARNING: DATA RACE") {
+				if strings.Contains(o1, "WARNING: DATA RACE") || strings.Contains(o1, "fatal error: concurrent map") {
 					res[r.file] = "race"
 				} else if e1 != nil {
-					err, out = e1, o1
+					res[r.file] = "crash: " + tail(strings.TrimSpace(o1), 1)
 				} else {
 					res[r.file] = r1[r.file]
 				}
@@ -192,7 +192,7 @@ func finish(o *Options, ov map[string]string, results []*HarnessStats, dirOf map
 	// 3. evidence
 	ev := map[string]interface{}{}
 	cov := map[string]interface{}{}
-	var paths, steps, obl, dis, forks, solverQ int
+	var paths, steps, obl, dis, forks, solverQ, crossN, crossBad, intQ, bvQ int
 	var solverS float64
 	funcs := map[string]int{}
 	var samples []interface{}
@@ -211,6 +211,10 @@ func finish(o *Options, ov map[string]string, results []*HarnessStats, dirOf map
 		forks += st.Forks
 		solverQ += st.SolverQ
 		solverS += st.SolverTime.Seconds()
+		crossN += st.CrossChecked
+		crossBad += st.CrossDisagree
+		intQ += st.IntQueries
+		bvQ += st.BVQueries
 		for f, c := range st.Funcs {
 			funcs[f] += c
 		}
@@ -239,6 +243,9 @@ func finish(o *Options, ov map[string]string, results []*HarnessStats, dirOf map
 	for _, u := range unconfirmed {
 		inconcl = append(inconcl, "UNCONFIRMED: "+u)
 	}
+	for _, c := range contractFailures {
+		inconcl = append(inconcl, "parser contract P not confirmed by the real go/parser: "+c)
+	}
 	if len(samples) == 0 {
 		samples = append(samples, "no symbolic obligation was generated")
 	}
@@ -265,6 +272,11 @@ func finish(o *Options, ov map[string]string, results []*HarnessStats, dirOf map
 	cov["solver_queries"] = solverQ
 	cov["solver_s"] = round3(solverS)
 	cov["solver"] = o.Cfg.SolverName
+	cov["queries_integer_encoding"] = intQ
+	cov["queries_bitvector_encoding"] = bvQ
+	cov["cross_checked_obligations"] = crossN
+	cov["cross_check_back_ends"] = o.Cfg.Cross
+	cov["cross_check_disagreements"] = crossBad
 	cov["functions_encoded"] = fl
 	cov["harnesses"] = harnessRows
 	cov["inconclusive"] = inconcl
